@@ -183,7 +183,7 @@ pub fn dispatch(p: &[String]) -> String {
         }
         "parse_assemble_kind" => generated::parse_assemble_kind(&p[1], p[2].parse::<u64>().unwrap_or(0) as u32, if p.len() > 3 { p[3].parse::<u64>().unwrap_or(0) as u32 } else { 0 }),
         "id_ref_any" => generated::id_ref_any(&p[1], p[2].parse::<u64>().unwrap_or(0)),
-        "builder_type_twice" => generated::builder_type_twice_mode(&p[1], if p.len() > 2 && p[2] == "explicit" { 1 } else if p.len() > 2 && p[2] == "decorated" { 2 } else { 0 }),
+        "builder_type_twice" => generated::builder_type_twice_mode(&p[1], if p.len() > 2 && p[2] == "explicit" { 1 } else if p.len() > 2 && p[2] == "decorated" { 2 } else if p.len() > 2 && p[2] == "idless" { 3 } else { 0 }),
         "storage_history" => {
             // n appends of distinct values from Storage::new(); then every token must have its index and yield its value
             use rspirv::sr::storage::Storage;
